@@ -88,7 +88,8 @@ bool stun_agent_default_validater (StunAgent *agent,
     stun_debug_bytes ("  Second username: ", val[i].username,
         val[i].username_len);
     if (username_len == val[i].username_len &&
-        memcmp (username, val[i].username, username_len) == 0) {
+        (username_len == 0 ||
+            memcmp (username, val[i].username, username_len) == 0)) {
       *password = (uint8_t *) val[i].password;
       *password_len = val[i].password_len;
       stun_debug ("Found valid username, returning password : '%s'", *password);
